@@ -223,7 +223,7 @@ fn make_case(timers: &[(Action, bool)], term: Term, term_time: u32, mailbox: Mai
             ..ExecCfg::default()
         },
         bound: None,
-        scene: Box::new(ProgScene {
+        scene: Box::new(ProgScene { variant: crate::progscene::current_variant(),
             spawn,
             attach: Attach::None,
             roles: vec![role],
